@@ -62,6 +62,8 @@ def span_blindness(chk, P):
             continue
         if "::finish::" in b.name:
             continue  # sort comparators: span start is the sort key (allowed sink)
+        if b.locals[0]["ty"] in ("errors::ParseError", "errors::ParseErrorKind") and not any(l["ty"].startswith("&mut") for l in b.locals[1:1 + b.arg_count]):
+            continue  # a pure error constructor: a branch in it shapes the error value only (a location is an allowed sink), never the verdict
         for bb in sorted(b.reachable_blocks()):
             t = b.term(bb)
             if t["t"] == "switch":
